@@ -47,13 +47,13 @@ def jobs(tier, seed):
             out.append({"kind": "list-order", "A": pa})
     out.append({"kind": "var"})
     alphabet = [-2, -1, 1, 2]
-    n = 60 if tier == "quick" else 800
+    n = 120 if tier == "quick" else 6000
     edits = ["none", "inputs-order", "inputs", "outputs", "outputs-order", "constant", "coefficient", "term-order", "copy", "drop-term"]
     for i in range(n):
         ins, outs = rng.choice([(["x", "u"], ["y"]), (["x"], ["y", "z"]), (["x", "u"], ["y", "z"])])
         c = CS.rand_contract(rng, ins, outs, alphabet, na=(0, 1, 2), ng=(1, 2))
         out.append({"kind": "contract", "c": c, "edit": edits[i % len(edits)], "pick": rng.random()})
-    for i in range(12 if tier == "quick" else 100):
+    for i in range(12 if tier == "quick" else 400):
         out.append({"kind": "compound", "edit": ["none", "outputs", "inputs"][i % 3], "g": [[B.rterm(rng, ["x", "y"], alphabet)] for _ in range(rng.choice([1, 2]))]})
     return out
 
